@@ -392,6 +392,7 @@ def rule_rates_source(ck):
     ck.clause('D4 (shared C11-D1/D3: rate lookup and non-cumulative scaling)')
     c11.rule_scaling(ck)
     c11.rule_lookup(ck)
+    c11.rule_axes(ck)
 
 
 RULES = [rule_t, rule_binary_t, rule_w, rule_public_t, rule_public_binary, rule_public_w, rule_rates_source]
